@@ -186,32 +186,81 @@ def gen_broker(out):
         U("getRequest is no longer `try: return self.waitingForAnswers[reqID] except KeyError: raise Violation`")
     out.append("Definition getRequest_looks_up_table_only : bool := true.")
 
-    # abandonAllRequests
+    # abandonAllRequests: [local assignments]; for req in list(self.waitingForAnswers.values()): [compute the reason]; eventually(req.fail, <reason>)
     ab = body_of(P.find_def(mod, "Broker.abandonAllRequests"))
-    if len(ab) != 1 or not isinstance(ab[0], ast.For) or ab[0].orelse:
-        U("abandonAllRequests is not a single for loop")
-    loop = ab[0]
+    loops = [x for x in ab if isinstance(x, ast.For)]
+    if len(loops) != 1 or ab[-1] is not loops[0] or loops[0].orelse:
+        U("abandonAllRequests does not end in a single for loop")
+    loop = loops[0]
+    pre = ab[:-1]
+
+    def effect_free(stmts, what):
+        for st in stmts:
+            for x in ast.walk(st):
+                if isinstance(x, (ast.Continue, ast.Break, ast.Return, ast.Raise, ast.For, ast.While, ast.Try, ast.Delete)):
+                    U("abandonAllRequests: control flow in %s may skip a request: %s" % (what, src(x)[:80]))
+                if isinstance(x, ast.Call) and isinstance(x.func, ast.Attribute) and x.func.attr in EFFECT_ATTRS:
+                    U("abandonAllRequests: unexpected effect in %s: %s" % (what, src(x)[:80]))
+                if isinstance(x, (ast.Assign, ast.AugAssign)):
+                    tg = x.targets if isinstance(x, ast.Assign) else [x.target]
+                    if not all(isinstance(t, ast.Name) for t in tg):
+                        U("abandonAllRequests: %s assigns to something that is not a local: %s" % (what, src(x)[:80]))
+    effect_free(pre, "the statements before the loop")
     if src(loop.target) != "req" or src(loop.iter) not in ("list(self.waitingForAnswers.values())",):
         U("abandonAllRequests iterates over `%s`, expected a snapshot list(self.waitingForAnswers.values())" % src(loop.iter))
     last = loop.body[-1]
     mode = None
-    if src(last) in ("eventually(req.fail, why)",):
-        mode = "AbandonEventually"
-    elif src(last) in ("req.fail(why)",):
-        mode = "AbandonDirect"
+    reason_var = None
+    if isinstance(last, ast.Expr) and isinstance(last.value, ast.Call) and src(last.value.func) == "eventually" \
+            and len(last.value.args) == 2 and src(last.value.args[0]) == "req.fail" and isinstance(last.value.args[1], ast.Name) \
+            and not last.value.keywords:
+        mode, reason_var = "AbandonEventually", last.value.args[1].id
+    elif isinstance(last, ast.Expr) and isinstance(last.value, ast.Call) and src(last.value.func) == "req.fail" \
+            and len(last.value.args) == 1 and isinstance(last.value.args[0], ast.Name) and not last.value.keywords:
+        mode, reason_var = "AbandonDirect", last.value.args[0].id
     else:
         U("abandonAllRequests: last statement of the loop is `%s`" % src(last)[:100])
-    # everything before the last statement may only compute `why`
-    for st in loop.body[:-1]:
-        for x in ast.walk(st):
-            if isinstance(x, (ast.Continue, ast.Break, ast.Return, ast.Raise)):
-                U("abandonAllRequests: control flow inside the loop may skip a request: " + src(x))
-            if isinstance(x, ast.Call) and isinstance(x.func, ast.Attribute) and x.func.attr in EFFECT_ATTRS:
-                U("abandonAllRequests: unexpected effect inside the loop: " + src(x))
+    effect_free(loop.body[:-1], "the loop")
     out.append("Definition abandon_mode_of_source : abandon_mode := %s." % mode)
-    maps = any(isinstance(x, ast.If) and src(x.test) == "why.check(*LOST_CONNECTION_ERRORS)" and
-               "DeadReferenceError(" in src(x) for x in loop.body)
-    out.append("Definition abandon_maps_lost_connection_to_DeadReferenceError : bool := %s." % ("true" if maps else "false"))
+
+    # which reasons are turned into DeadReferenceError: the test guarding the only construction of DeadReferenceError.
+    # Recognised tests (directly, or through one local variable assigned before the loop):
+    #   why.check(*LOST_CONNECTION_ERRORS)   -> the listed classes and their subclasses (Failure.check)
+    #   why.type in LOST_CONNECTION_ERRORS   -> the listed classes only
+    ifs = [x for x in loop.body[:-1] if isinstance(x, ast.If)]
+    if len(ifs) != 1 or ifs[0].orelse:
+        U("abandonAllRequests: expected exactly one `if` (without else) deciding the DeadReferenceError mapping")
+    guard = ifs[0]
+    test = guard.test
+    if isinstance(test, ast.Name):
+        defs = [st for st in pre if isinstance(st, ast.Assign) and len(st.targets) == 1 and src(st.targets[0]) == test.id]
+        if len(defs) != 1:
+            U("abandonAllRequests: cannot resolve the guard variable `%s`" % test.id)
+        test = defs[0].value
+    t = src(test)
+    if t == "why.check(*LOST_CONNECTION_ERRORS)":
+        lost_test = "LostCheckSubclasses"
+    elif t in ("why.type in LOST_CONNECTION_ERRORS", "why.type in tuple(LOST_CONNECTION_ERRORS)"):
+        lost_test = "LostExactTypeOnly"
+    else:
+        U("abandonAllRequests: unrecognised lost-connection test `%s`" % t[:100])
+    # inside the guard: a Failure of a fresh DeadReferenceError is assigned to the variable that is passed to req.fail
+    gsrc = [src(x) for x in guard.body]
+    if not any(x.startswith("e = DeadReferenceError(") for x in gsrc) or ("%s = failure.Failure(e)" % reason_var) not in gsrc:
+        U("abandonAllRequests: the guarded block no longer builds failure.Failure(DeadReferenceError(..)) into `%s`: %s" % (reason_var, gsrc))
+    # outside the guard the reason variable is the original `why` (or the previous iteration's value of `why`)
+    if reason_var != "why":
+        inits = [src(x) for x in loop.body[:-1] if isinstance(x, ast.Assign) and src(x.targets[0]) == reason_var]
+        if inits != ["%s = why" % reason_var]:
+            U("abandonAllRequests: `%s` is not initialised from `why` in every iteration: %s" % (reason_var, inits))
+    out.append("Definition lost_test_of_source : lost_test := %s." % lost_test)
+    # the list itself
+    lce = [st for st in mod.body if isinstance(st, ast.Assign) and src(st.targets[0]) == "LOST_CONNECTION_ERRORS"]
+    if len(lce) != 1 or src(lce[0].value) != "[error.ConnectionLost, error.ConnectionDone]":
+        U("LOST_CONNECTION_ERRORS is no longer [error.ConnectionLost, error.ConnectionDone] (+ SSL.Error)")
+    ssl = "LOST_CONNECTION_ERRORS.append(SSL.Error)" in P.source("broker.py")
+    out.append("Definition lost_connection_errors_listed : list lost_class := [ConnectionLostC; ConnectionDoneC%s]."
+               % ("; SSLErrorC" if ssl else ""))
 
     # finish
     fin = body_of(P.find_def(mod, "Broker.finish"))
@@ -364,6 +413,9 @@ Inductive fstmt := FReturnIfDisconnected | FSetDisconnected | FAbandon.
 
 Inductive remove_kind := RemoveDel | RemoveQuiet.          (* `del d[k]` raises KeyError / `d.pop(k, None)` does not *)
 Inductive abandon_mode := AbandonEventually | AbandonDirect. (* eventually(req.fail, why) / req.fail(why) *)
+(* the test in abandonAllRequests that decides which reasons become DeadReferenceError *)
+Inductive lost_test := LostCheckSubclasses | LostExactTypeOnly. (* Failure.check on the list (matches subclasses) / `why.type in` the list (exact classes only) *)
+Inductive lost_class := ConnectionLostC | ConnectionDoneC | SSLErrorC.
 '''
 
 
